@@ -864,6 +864,7 @@ func furtherPropsTable(c *core.Ctx, p *procInfo, narrowing *ssa.Function) (rs ro
 				calls, props, orig = nil, nil, nil
 				t := newTbl(c)
 				list := &absint.List{}
+				sharedType := absint.NewTok("T:field", "type")
 				for i, k := range cfg {
 					pr := absint.NewTok(fmt.Sprintf("prop%d", i), "property")
 					pr.Fields["PropertyType"] = absint.Str(k.ptype)
@@ -873,6 +874,11 @@ func furtherPropsTable(c *core.Ctx, p *procInfo, narrowing *ssa.Function) (rs ro
 						inj.Elems = append(inj.Elems, absint.NewTok(fmt.Sprintf("cand%d.%d", i, j), "cand"))
 					}
 					pr.Fields["Injects"] = inj
+					// both points are of one kind: the same field type, the same raw tag and no arguments (what a point
+					// receives must depend on its own candidates and holder only)
+					fld, base := absint.NewTok(fmt.Sprintf("prop%d.Field", i), "field"), absint.NewTok(fmt.Sprintf("prop%d.Field.Base", i), "base")
+					pr.Fields["Field"], fld.Fields["Base"], base.Fields["Type"] = fld, base, sharedType
+					pr.Fields["TagStr"], pr.Fields["TagVal"] = absint.Str(""), absint.Str("")
 					pr.Attr["idx"] = absint.Int(i)
 					props = append(props, pr)
 					orig = append(orig, inj)
